@@ -1051,7 +1051,7 @@ func (c *checker) worldCheck() (map[string]any, int, int) {
 
 	// thorough tier of C18: collections at statement points inside operations
 	pointsInfo := map[string]any{"enabled": false}
-	if c.cfg.points && (c.tier == "thorough" || os.Getenv("VERIF_POINTS_QUICK") != "") {
+	if c.cfg.points && (c.tier == "thorough" || (os.Getenv("VERIF_POINTS_QUICK") != "" && os.Getenv("VERIF_POINTS_QUICK") != "0")) {
 		pbin, ok, info := c.buildInstrumented(c.cfg.binName+"-points", c.cfg.buildFlags)
 		if !ok {
 			pointsInfo["fallback"] = "statement points unavailable, step-boundary events only: " + info
@@ -1497,7 +1497,10 @@ func (c *checker) raceCheck() (map[string]any, int, int) {
 	c.workers = savedWorkers
 	// thorough tier: the baton also changes hands at statement points inside operations
 	pointsInfo := map[string]any{"enabled": false}
-	if c.tier == "thorough" || os.Getenv("VERIF_POINTS_QUICK") != "" {
+	// (also in the quick tier unless VERIF_POINTS_QUICK=0: windows between two statements
+	// of the library — a check-then-act on shared state — are invisible to switches at
+	// operation boundaries)
+	if c.tier == "thorough" || os.Getenv("VERIF_POINTS_QUICK") != "0" {
 		pbin, ok, info := c.buildInstrumented("sim-race-points", []string{"-race"})
 		if !ok {
 			pointsInfo["fallback"] = "statement points unavailable, operation-boundary switches only: " + info
